@@ -79,7 +79,10 @@ def main() -> int:
         for k, v in old.get("checks", {}).items():
             meta["checks"].setdefault(k, [])
             meta["checks"][k] = v + [x for x in meta["checks"][k] if x not in v]
-        for k in ("needs_to_manifest", "summary"):
+        for k in ("suite", "suite_passes"):
+            if k not in meta["verified"] and k in old.get("verified", {}):
+                meta["verified"][k] = old["verified"][k]
+        for k in ("needs_to_manifest", "summary", "history"):
             if k in old:
                 meta[k] = old[k]
     (dst / "meta.json").write_text(json.dumps(meta, indent=1))
